@@ -12,6 +12,11 @@
 //   id=17 dec=deflate in=/path/file src=1,2,* srcmode=view|fresh dst=3,* dstmode=grow|compact
 //   wb=min|max init=0|1|2 prefill=A5 close=end|late oracle=/path out=/path pixfmt=native|bgra quirks=k:v,k:v
 //   maxcalls=N budget_ms=N parts=3,5,* (hashers)
+//
+// With -DVERIF_RANGE the snapshot must be the "checked build" (hook H3: cgen built with -tags verif and run
+// with WUFFS_VERIF_RANGE=1): the driver installs the recorder for the run-time assertions of the compiler's
+// own ranges and every event of a public call carries "range_viol": <violations during that call> (+ the first
+// violating site and value).  Without it nothing changes.
 
 #define WUFFS_IMPLEMENTATION
 #include "wuffs-snapshot.c"
@@ -161,6 +166,71 @@ void __wrap_free(void* p) {
 static __thread FILE* g_ev = NULL;
 static __thread long g_job_id = -1;
 static __thread const char* g_phase = "";
+
+// ---- range assertions of the checked build (H3)
+#ifdef VERIF_RANGE
+static void json_str(FILE* f, const char* s);
+static unsigned long long g_rv_total = 0;    // violations recorded so far
+static unsigned long long g_rv_emitted = 0;  // ... of which already reported in an event
+static const wuffs_verif__site* g_rv_site = NULL;  // first violation since the last event
+static wuffs_verif__wide g_rv_value = 0, g_rv_lo = 0, g_rv_hi = 0;
+
+static void rv_record(const wuffs_verif__site* site, wuffs_verif__wide value, wuffs_verif__wide lo, wuffs_verif__wide hi) {
+  if (g_rv_total == g_rv_emitted) {
+    g_rv_site = site;
+    g_rv_value = value;
+    g_rv_lo = lo;
+    g_rv_hi = hi;
+  }
+  g_rv_total++;
+}
+
+static void rv_dec(char* out, size_t n, wuffs_verif__wide v) {
+  char tmp[48];
+  int i = 0, neg = v < 0;
+  unsigned __int128 u = neg ? (unsigned __int128)(-(v + 1)) + 1 : (unsigned __int128)v;
+  do {
+    tmp[i++] = (char)('0' + (int)(u % 10));
+    u /= 10;
+  } while (u && i < 45);
+  size_t k = 0;
+  if (neg && k + 1 < n) out[k++] = '-';
+  while (i > 0 && k + 1 < n) out[k++] = tmp[--i];
+  out[k] = 0;
+}
+
+// appends ,"range_viol":N[,"range_site":..,"range_value":..] to the event being written
+static void rv_emit(FILE* f) {
+  unsigned long long d = g_rv_total - g_rv_emitted;
+  g_rv_emitted = g_rv_total;
+  // (TLC's integers are 32-bit: the count is capped, the number of evaluated assertions is a string)
+  fprintf(f, ",\"range_viol\":%llu", d > 1000000000ULL ? 1000000000ULL : d);
+#ifdef WUFFS_VERIF_RANGE_COUNT
+  {
+    static unsigned long long evals_emitted = 0;
+    fprintf(f, ",\"range_evals\":\"%llu\"", (unsigned long long)wuffs_verif__range_evaluations - evals_emitted);
+    evals_emitted = wuffs_verif__range_evaluations;
+  }
+#endif
+  if (d && g_rv_site) {
+    char site[1024], v[48], lo[48], hi[48];
+    rv_dec(v, sizeof v, g_rv_value);
+    rv_dec(lo, sizeof lo, g_rv_lo);
+    rv_dec(hi, sizeof hi, g_rv_hi);
+    snprintf(site, sizeof site, "%s:%u %s [%s] %s claimed %s ..= %s", g_rv_site->file, (unsigned)g_rv_site->line,
+             g_rv_site->func, g_rv_site->kind, g_rv_site->expr, g_rv_site->lo, g_rv_site->hi);
+    fprintf(f, ",\"range_site\":");
+    json_str(f, site);
+    fprintf(f, ",\"range_file\":");
+    json_str(f, g_rv_site->file);
+    fprintf(f, ",\"range_line\":%u,\"range_kind\":\"%s\",\"range_value\":\"%s\",\"range_lo\":\"%s\",\"range_hi\":\"%s\"",
+            (unsigned)g_rv_site->line, g_rv_site->kind, v, lo, hi);
+  }
+}
+#define RV_EMIT(f) rv_emit(f)
+#else
+#define RV_EMIT(f) ((void)0)
+#endif
 
 // ---- pair mode: two jobs on two objects in two threads, either handing a
 // baton over before every Wuffs call (deterministic interleaving) or running
@@ -522,6 +592,7 @@ static void emit_call(const char* m, int coro, const snap_t* sn, const wuffs_bas
   json_str(g_ev, st.repr);
   fprintf(g_ev, ",\"cls\":\"%s\",\"internal\":%s,\"al\":%ld", cls_of(st.repr),
           (st.repr && strstr(st.repr, "internal error")) ? "true" : "false", (long)g_allocs_in_call);
+  RV_EMIT(g_ev);
 }
 
 static void emit_begin(const job_t* j, const decoder_t* d, size_t n, wuffs_base__status ist) {
@@ -531,6 +602,7 @@ static void emit_begin(const job_t* j, const decoder_t* d, size_t n, wuffs_base_
           j->id, d->name, kinds[d->kind], n, j->init, j->prefill, j->srcmode_fresh ? "fresh" : "view",
           j->dstmode_compact ? "compact" : "grow", j->wb_max ? "max" : "min", j->close_late ? "late" : "end");
   json_str(g_ev, ist.repr);
+  RV_EMIT(g_ev);
   fprintf(g_ev, "}\n");
 }
 
@@ -559,7 +631,9 @@ static void apply_quirks(const job_t* j, const decoder_t* d, void* iface) {
       g_in_call = 0;
       fprintf(g_ev, "{\"j\":%ld,\"k\":\"quirk\",\"key\":%u,\"st\":", g_job_id, key);
       json_str(g_ev, st.repr);
-      fprintf(g_ev, ",\"cls\":\"%s\",\"al\":%ld}\n", cls_of(st.repr), (long)g_allocs_in_call);
+      fprintf(g_ev, ",\"cls\":\"%s\",\"al\":%ld", cls_of(st.repr), (long)g_allocs_in_call);
+      RV_EMIT(g_ev);
+      fprintf(g_ev, "}\n");
     }
     t = comma ? comma + 1 : NULL;
   }
@@ -781,8 +855,10 @@ static void run_hasher(const job_t* j, const decoder_t* d, void* obj, const uint
     g_in_call = 0;
     calls++;
     bool same = fnv(piece, k) == h0;
-    fprintf(g_ev, "{\"j\":%ld,\"k\":\"hcall\",\"len\":%zu,\"ssame\":%s,\"al\":%ld}\n", g_job_id, k, same ? "true" : "false",
+    fprintf(g_ev, "{\"j\":%ld,\"k\":\"hcall\",\"len\":%zu,\"ssame\":%s,\"al\":%ld", g_job_id, k, same ? "true" : "false",
             (long)g_allocs_in_call);
+    RV_EMIT(g_ev);
+    fprintf(g_ev, "}\n");
     free(piece);
     off += k;
     if (k == 0 && off < n) off++;  // never loops forever on a 0 piece
@@ -1084,8 +1160,10 @@ static void probe_pure(const decoder_t* d, uint8_t* obj, size_t sz, const char* 
   }
   g_in_call = 0;
   bool chg = memcmp(snap, obj, sz) != 0;
-  fprintf(g_ev, "{\"j\":%ld,\"k\":\"pure\",\"when\":\"%s\",\"ncalls\":%d,\"objchg\":%s,\"al\":%ld,\"acc\":\"%llx\"}\n", g_job_id, when, ncalls,
+  fprintf(g_ev, "{\"j\":%ld,\"k\":\"pure\",\"when\":\"%s\",\"ncalls\":%d,\"objchg\":%s,\"al\":%ld,\"acc\":\"%llx\"", g_job_id, when, ncalls,
           chg ? "true" : "false", (long)g_allocs_in_call, acc);
+  RV_EMIT(g_ev);
+  fprintf(g_ev, "}\n");
   free(snap);
 }
 
@@ -1217,6 +1295,9 @@ int main(int argc, char** argv) {
     return 2;
   }
   g_ev = ev;
+#ifdef VERIF_RANGE
+  wuffs_verif__range_hook = rv_record;
+#endif
   signal(SIGVTALRM, on_timeout);
   static char line[16384];
   while (fgets(line, sizeof line, jf)) {
